@@ -104,6 +104,22 @@ RuleLemmas ==
       /\ ChainOK(<<"p2q", "q2l", "l2p">>) /\ ~ChainExact(<<"p2q", "q2l", "l2p">>)
       /\ ~ChainOK(<<"p2l", "q2p">>)
 
+\* closed forms of the "big" families = the general definitions, for small parameters
+SmallClasses == {<< >>} \cup {<<c>> : c \in {1, 3} \X {0, 1, 3}} \cup {<<c, d>> : c \in {1, 3} \X {1, 2}, d \in {2, 5} \X {0, 2}}
+BigLemmas ==
+    n = 0 =>
+      /\ \A cl \in SmallClasses : \A pos \in 1..(ClassCount(cl, 1, 0) + 1) :
+            LET l == Expand(cl, 100, pos) IN
+            /\ Len(l) = ClassCount(cl, 1, 0) + 1 /\ l[pos] = 100
+            /\ Sum(l) = BigSumClosed(cl, 100)
+            /\ \A k \in 1..Len(l) : CumSums(l)[k] = BigPrefixClosed(cl, 100, pos, k)
+      /\ \A k \in {3, 5, 7} : \A kp \in 0..(k - 1) : \A h \in 0..k : \A x1 \in {0, 2} : \A x2 \in {1, 3} :
+            LET ys == PeakFloorSamples(k, kp, h, x1, x2, 50) IN
+            /\ WSum(ys, TrapzW(k), 1, 0) = PeakFloorClosed("trapz", k, kp, h, x1, x2, 50)
+            /\ WSum(ys, SimpsonW(k), 1, 0) = PeakFloorClosed("simpson", k, kp, h, x1, x2, 50)
+      /\ \A k \in {4, 6} : \A kp \in 0..(k - 1) : \A h \in 0..k :
+            WSum(PeakFloorSamples(k, kp, h, 2, 3, 50), TrapzW(k), 1, 0) = PeakFloorClosed("trapz", k, kp, h, 2, 3, 50)
+
 \* progress: n counts up to MaxOps
 Progress == [][n' = n + 1]_vars
 =============================================================================
